@@ -318,7 +318,19 @@ Definition found_iter (f : service -> bool) (g : service -> addr -> world -> wor
                               | _ => acc2
                               end) (snd p) acc) (found w) w.
 
-Definition watch_service (f : service) (l : listener) (w : world) : world :=
+(* ghost: a recording listener that is registered while it already has a registration (under any filter, or for all
+   services) leaves the domain in which its notifications alternate (finding F13); nothing reads this *)
+Definition occ (l : listener) (ls : list listener) : nat := length (filter (listener_eqb l) ls).
+Definition regs_of (l : listener) (w : world) : nat :=
+  list_sum (map (fun p => occ l (snd p)) (watched w)) + occ l (watch_all w).
+Definition note_multi (l : listener) (w : world) : world :=
+  match l with
+  | LRec id => if Nat.eqb (regs_of l w) 0 then w else ghost (GMulti id) w
+  | LAuto _ => w
+  end.
+
+Definition watch_service (f : service) (l : listener) (w0 : world) : world :=
+  let w := note_multi l w0 in
   let w1 := set_watched (aset service_eqb f (add_listener l (watched_get f w)) (watched w)) w in
   found_iter (fun s => matches_service f s) (listener_offered l) w1.
 
@@ -331,7 +343,8 @@ Definition stop_watch_service (f : service) (l : listener) (w : world) : world :
       found_iter (fun s => matches_service f s) (listener_stopped l) w1
   end.
 
-Definition watch_all_services (l : listener) (w : world) : world :=
+Definition watch_all_services (l : listener) (w0 : world) : world :=
+  let w := note_multi l w0 in
   let w1 := set_watch_all (add_listener l (watch_all w)) w in
   found_iter (fun _ => true) (listener_offered l) w1.
 
